@@ -16,7 +16,8 @@
 EXTENDS RxVm, Json, IOUtils
 
 TraceLog == ndJsonDeserialize(IOEnv.TRACE)
-VARIABLES l, ref      \* ref: result all engines of the current program must reproduce
+VARIABLES l, ref,     \* ref: result all engines of the current program must reproduce
+          lenmax     \* [v2 |-> longest x86 encoding of one RandomX instruction] learnt from `codelen` lines (code-buffer budget)
 Ev == TraceLog[l]
 
 PatK == <<31765, 32586, 31161, 40503>>      \* 0x9E3779B97F4A7C15
@@ -49,32 +50,55 @@ Matches(ev, want) ==
 
 First == Ev.first
 \* the interpreter's decoded program: every CBRANCH jumps to the instruction after the last writer of its register
-TargetsOk(ev) == LET dec == DecodeProgram(ev.words)
-                     want == [i \in 1..Len(dec) |-> IF dec[i].k = "CBRANCH" THEN dec[i].target ELSE -2]
-                 IN  /\ ev.targets = want
-                     \* the targets the x86 JIT encoded (when the harness could read them back from the code buffer)
-                     /\ ("jtargets" \in DOMAIN ev /\ ev.jtargets # <<>>) => ev.jtargets = want
+TargetsOk(ev) ==
+  \* (one reference to the decoded program: a LET body referenced inside a function constructor would be re-evaluated per element)
+  LET want == FoldLeft(LAMBDA acc, d : Append(acc, IF d.k = "CBRANCH" THEN d.target ELSE -2), <<>>, DecodeProgram(ev.words))
+  IN  /\ ev.targets = want
+      \* the targets the x86 JIT encoded (when the harness could read them back from the code buffer)
+      /\ ("jtargets" \in DOMAIN ev /\ ev.jtargets # <<>>) => ev.jtargets = want
 TOracleFirst == /\ l <= Len(TraceLog) /\ Ev.e = "run" /\ Ev.tag = "oracle" /\ First
                 /\ TargetsOk(Ev)
                 /\ LET want == Expected(Ev) IN Matches(Ev, want) /\ ref' = want
-                /\ l' = l + 1
+                /\ l' = l + 1 /\ UNCHANGED lenmax
 TDiffFirst == /\ l <= Len(TraceLog) /\ Ev.e = "run" /\ Ev.tag = "diff" /\ First
               /\ ~Ev.oob
               /\ ref' = [reg |-> LimbsToWords(Ev.reg), fprc |-> Ev.fprc, count |-> IF Ev.engine = "interp" THEN Ev.count ELSE -1,
                          writes |-> ToSet(Ev.writes), whash |-> Ev.whash, nwrites |-> Ev.nwrites]
               /\ Ev.count <= 3 * (IF Ev.v2 THEN 384 ELSE 256) * Ev.n
-              /\ l' = l + 1
+              /\ l' = l + 1 /\ UNCHANGED lenmax
 TFollow == /\ l <= Len(TraceLog) /\ Ev.e = "run" /\ ~First
            /\ Matches(Ev, ref) /\ UNCHANGED ref
-           /\ l' = l + 1
+           /\ l' = l + 1 /\ UNCHANGED lenmax
 \* code-buffer layout (C06): a generated program ends before the SuperscalarHash area, leaves it intact,
 \* and the SuperscalarHash code itself ends inside the buffer
 TCodegen == /\ l <= Len(TraceLog) /\ Ev.e = "codegen"
             /\ Ev.codePos > 0 /\ Ev.codePos <= Ev.limit /\ Ev.sshChanged = 0
             /\ Ev.sshPos > Ev.limit /\ Ev.sshPos <= Ev.codeSize
+            /\ l' = l + 1 /\ UNCHANGED <<ref, lenmax>>
+(***************************************************************************)
+(* Code-buffer budget FOR EVERY PROGRAM (C06).  The x86 JIT emits the code  *)
+(* of instruction i from its 8 bytes alone (no alignment, no peephole), so *)
+(* the end of a generated program is base(flags) + the sum of the          *)
+(* instruction lengths.  `codelen` lines carry, per opcode byte, the       *)
+(* longest encoding over ALL dst x src x mod bytes and the immediate       *)
+(* classes; `codebase` lines the fixed part measured for one flag set.     *)
+(* Then base + size * max length <= start of the SuperscalarHash area      *)
+(* bounds every program, not only the recorded ones; the library's own     *)
+(* constant MaxRandomXInstrCodeSize = 32 must dominate every length.       *)
+(***************************************************************************)
+MaxOf(t) == FoldLeft(LAMBDA a, x : IF x[2] > a THEN x[2] ELSE a, 0, t)
+TCodeLen == /\ l <= Len(TraceLog) /\ Ev.e = "codelen"
+            /\ Len(Ev.lens) = 256 /\ \A i \in 1..256 : Ev.lens[i][1] = i - 1 /\ Ev.lens[i][2] >= 1 /\ Ev.lens[i][2] <= 32
+            /\ Ev.combos = 256 * 8 * 8 * 256                        \* every opcode x dst x src x mod byte was encoded
+            /\ lenmax' = [lenmax EXCEPT ![IF Ev.v2 THEN 2 ELSE 1] = MaxOf(Ev.lens)]
             /\ l' = l + 1 /\ UNCHANGED ref
-Init == l = 1 /\ ref = [reg |-> <<>>, fprc |-> 0, count |-> 0, writes |-> {}, whash |-> <<>>, nwrites |-> 0]
-Next == TOracleFirst \/ TDiffFirst \/ TFollow \/ TCodegen
-Spec == Init /\ [][Next]_<<l, ref>>
+TCodeBase == /\ l <= Len(TraceLog) /\ Ev.e = "codebase"
+             /\ lenmax[IF Ev.v2 THEN 2 ELSE 1] > 0
+             /\ Ev.base > 0 /\ Ev.base + Ev.size * lenmax[IF Ev.v2 THEN 2 ELSE 1] <= Ev.limit
+             /\ Ev.size = (IF Ev.v2 THEN 384 ELSE 256)
+             /\ l' = l + 1 /\ UNCHANGED <<ref, lenmax>>
+Init == l = 1 /\ ref = [reg |-> <<>>, fprc |-> 0, count |-> 0, writes |-> {}, whash |-> <<>>, nwrites |-> 0] /\ lenmax = <<0, 0>>
+Next == TOracleFirst \/ TDiffFirst \/ TFollow \/ TCodegen \/ TCodeLen \/ TCodeBase
+Spec == Init /\ [][Next]_<<l, ref, lenmax>>
 Accepted == TLCGet("stats").diameter - 1 = Len(TraceLog)
 =============================================================================
